@@ -7,6 +7,7 @@ import (
 	"fmt"
 	"io"
 	"runtime/debug"
+	"sort"
 	"strings"
 
 	"github.com/kstenerud/go-concise-encoding/ce"
@@ -176,3 +177,12 @@ func containsStr(s string, subs ...string) bool {
 	}
 	return false
 }
+
+func sortStrings(s []string) { sort.Strings(s) }
+
+func sortNodes(k []*ev.Node) {
+	sort.SliceStable(k, func(i, j int) bool { return k[i].String() < k[j].String() })
+}
+
+func newCBEDecoder(cfg *configuration.Configuration) ce.Decoder { return ce.NewCBEDecoder(cfg) }
+func newCTEDecoder(cfg *configuration.Configuration) ce.Decoder { return ce.NewCTEDecoder(cfg) }
